@@ -20,7 +20,7 @@ Section Split.
     (snd r = None <-> forall m, In m ms -> acc T m ex = true) /\
     (forall vm, snd r = Some vm -> (exists m, In m ms /\ acc T m ex = true) ->
        get vm v = filter (fun m => negb (acc T m ex)) ms) /\
-    (forall vm, fst r = Some vm -> get vm v = nodupn (flat_map (narrow T) ms)).
+    (forall vm, fst r = Some vm -> get vm v = nodupn (flat_map (narrow T) (filter (fun m => acc T m ex) ms))).
   Proof.
     intros rho v T ex ms r. unfold r, is_of_type. fold ms.
     assert (Hget : forall N, get [(v, N)] v = N).
@@ -53,57 +53,50 @@ Section Split.
   Qed.
 End Split.
 
-(* ---- the full distribution statement, and why it is refuted -------------- *)
+(* ---- the full distribution statement -------------------------------------- *)
 
 Definition sameset (a b : list nat) : Prop := forall x, In x a <-> In x b.
 
 (* "for a union argument the result is the union of the results for each
    member evaluated separately" (returned types and show_error sites), for
-   every body, with exact narrowing tables and the other arguments union-free *)
+   every body, when the union has no Any member, a matching member is not changed
+   by the positive narrowing and the other arguments are present and union-free.  Since the fall-through repair (every statement visit returns a
+   fall-through varmap) this holds without any restriction on the body: it is
+   proved in Proofs/TypeEvalDistrib.v. *)
 Definition union_distributes_full_statement : Prop :=
-  forall (acc : typ -> member -> bool -> bool) (narrow : typ -> member -> list member) (posof : var -> posn),
+  forall (acc : typ -> member -> bool -> bool) (narrow : typ -> member -> list member) (posof : var -> posn)
+         (isany : member -> bool),
     (forall T m ex, acc T m ex = true -> narrow T m = [m]) ->
-    (forall T m ex, acc T m ex = false -> narrow T m = []) ->
     forall rho x ms body dflt,
       ms <> [] ->
-      (forall v ms', lookup rho v = Some ms' -> length ms' = 1) ->
-      sameset (fst (evaluate acc narrow posof ((x, ms) :: rho) body dflt))
-              (flat_map (fun m => fst (evaluate acc narrow posof ((x, [m]) :: rho) body dflt)) ms) /\
-      sameset (snd (evaluate acc narrow posof ((x, ms) :: rho) body dflt))
-              (flat_map (fun m => snd (evaluate acc narrow posof ((x, [m]) :: rho) body dflt)) ms).
+      (forall m, In m ms -> isany m = false) ->
+      (forall v, v <> x -> exists m, get rho v = [m]) ->
+      sameset (fst (evaluate acc narrow posof isany ((x, ms) :: rho) body dflt))
+              (flat_map (fun m => fst (evaluate acc narrow posof isany ((x, [m]) :: rho) body dflt)) ms) /\
+      sameset (snd (evaluate acc narrow posof isany ((x, ms) :: rho) body dflt))
+              (flat_map (fun m => snd (evaluate acc narrow posof isany ((x, [m]) :: rho) body dflt)) ms).
 
-(* tables of a two-type world: member k is assignable exactly to type k *)
+(* tables of a small world: member k is assignable exactly to type k *)
 Definition acc_eq (T m : nat) (_ : bool) : bool := m =? T.
 Definition narrow_eq (T m : nat) : list nat := if m =? T then [m] else [].
 Definition pos_int (_ : var) : posn := PInt.
+Definition no_any (_ : member) : bool := false.
 
 (*  if is_of_type(x, T0): return R1
     if is_of_type(x, T0): return R3
-    return R2                                                               *)
+    return R2
+    Before the repair the union [0;1] gave [1;3;2] (the second test saw the
+    un-narrowed union); now it is the union of the member results. *)
 Definition fallthrough_body : block :=
   BCons (SIf (CType 0 0 true) (BCons (SReturn 1) BNil) BNil)
  (BCons (SIf (CType 0 0 true) (BCons (SReturn 3) BNil) BNil)
  (BCons (SReturn 2) BNil)).
 
 Lemma fallthrough_values :
-  evaluate acc_eq narrow_eq pos_int [(0, [0; 1])] fallthrough_body 4 = ([1; 3; 2], []) /\
-  evaluate acc_eq narrow_eq pos_int [(0, [0])] fallthrough_body 4 = ([1], []) /\
-  evaluate acc_eq narrow_eq pos_int [(0, [1])] fallthrough_body 4 = ([2], []).
+  evaluate acc_eq narrow_eq pos_int no_any [(0, [0; 1])] fallthrough_body 4 = ([1; 2], []) /\
+  evaluate acc_eq narrow_eq pos_int no_any [(0, [0])] fallthrough_body 4 = ([1], []) /\
+  evaluate acc_eq narrow_eq pos_int no_any [(0, [1])] fallthrough_body 4 = ([2], []).
 Proof. repeat split; vm_compute; reflexivity. Qed.
-
-Lemma union_distributes_refuted_fallthrough : ~ union_distributes_full_statement.
-Proof.
-  intros H.
-  destruct (H acc_eq narrow_eq pos_int) with (rho := @nil (var * list member)) (x := 0) (ms := [0; 1])
-                                              (body := fallthrough_body) (dflt := 4) as [Hr _].
-  - intros T m ex E. unfold acc_eq in E. unfold narrow_eq. now rewrite E.
-  - intros T m ex E. unfold acc_eq in E. unfold narrow_eq. now rewrite E.
-  - discriminate.
-  - intros v ms' E. discriminate.
-  - unfold sameset in Hr. specialize (Hr 3). vm_compute in Hr. destruct Hr as [Hin _].
-    assert (X : 1 = 3 \/ 3 = 3 \/ 2 = 3 \/ False) by (right; left; reflexivity).
-    specialize (Hin X). destruct Hin as [Hc|[Hc|Hc]]; try discriminate; contradiction.
-Qed.
 
 (* the repaired `or`: is_of_type(x,T0) or is_of_type(x,T1) on members {0,1,2}:
    the body sees members 0 and 1, the else branch member 2, and the result is
@@ -114,8 +107,97 @@ Definition or_body : block :=
              (BCons (SReturn 3) BNil)) BNil.
 
 Lemma or_example :
-  evaluate acc_eq narrow_eq pos_int [(0, [0; 1; 2])] or_body 4 = ([1; 2; 3], [7]) /\
-  evaluate acc_eq narrow_eq pos_int [(0, [0])] or_body 4 = ([1], []) /\
-  evaluate acc_eq narrow_eq pos_int [(0, [1])] or_body 4 = ([2], [7]) /\
-  evaluate acc_eq narrow_eq pos_int [(0, [2])] or_body 4 = ([3], []).
+  evaluate acc_eq narrow_eq pos_int no_any [(0, [0; 1; 2])] or_body 4 = ([1; 2; 3], [7]) /\
+  evaluate acc_eq narrow_eq pos_int no_any [(0, [0])] or_body 4 = ([1], []) /\
+  evaluate acc_eq narrow_eq pos_int no_any [(0, [1])] or_body 4 = ([2], [7]) /\
+  evaluate acc_eq narrow_eq pos_int no_any [(0, [2])] or_body 4 = ([3], []).
 Proof. repeat split; vm_compute; reflexivity. Qed.
+
+Lemma tables_exact : forall T m ex, acc_eq T m ex = true -> narrow_eq T m = [m].
+Proof. intros T m ex E; unfold acc_eq in E; unfold narrow_eq; now rewrite E. Qed.
+
+(* ---- the hypothesis narrow_id is necessary -------------------------------- *)
+
+Definition union_distributes_without_narrow_id : Prop :=
+  forall (acc : typ -> member -> bool -> bool) (narrow : typ -> member -> list member) (posof : var -> posn)
+         (isany : member -> bool),
+    forall rho x ms body dflt,
+      ms <> [] ->
+      (forall m, In m ms -> isany m = false) ->
+      (forall v, v <> x -> exists m, get rho v = [m]) ->
+      sameset (fst (evaluate acc narrow posof isany ((x, ms) :: rho) body dflt))
+              (flat_map (fun m => fst (evaluate acc narrow posof isany ((x, [m]) :: rho) body dflt)) ms).
+
+(* member 9 plays Any: it matches every type when exclude_any=False, only type 9
+   otherwise, and a permissive match converts it to the tested type *)
+Definition acc_any (T m : nat) (ex : bool) : bool := if m =? 9 then negb ex || (T =? 9) else m =? T.
+Definition narrow_any (T m : nat) : list nat := if m =? 9 then [T] else if m =? T then [m] else [].
+
+(*  if not is_of_type(x, T0, exclude_any=False): return R1
+    if is_of_type(x, T1): return R2
+    else: return R3                                                        *)
+Definition any_body : block :=
+  BCons (SIf (CNot (CType 0 0 false)) (BCons (SReturn 1) BNil) BNil)
+ (BCons (SIf (CType 0 1 true) (BCons (SReturn 2) BNil) (BCons (SReturn 3) BNil)) BNil).
+
+Lemma any_values :
+  fst (evaluate acc_any narrow_any pos_int no_any [(0, [9; 1])] any_body 4) = [1; 2; 3] /\
+  fst (evaluate acc_any narrow_any pos_int no_any [(0, [9])] any_body 4) = [3] /\
+  fst (evaluate acc_any narrow_any pos_int no_any [(0, [1])] any_body 4) = [1].
+Proof. repeat split; vm_compute; reflexivity. Qed.
+
+Lemma union_distributes_refuted_without_narrow_id : ~ union_distributes_without_narrow_id.
+Proof.
+  intros H.
+  pose proof (H acc_any narrow_any pos_int no_any (@nil (var * list member)) 0 [9; 1] any_body 4) as Hr.
+  assert (Hne : [9; 1] <> []) by discriminate.
+  assert (Hna : forall m, In m [9; 1] -> no_any m = false) by reflexivity.
+  assert (Ho : forall v, v <> 0 -> exists m, get (@nil (var * list member)) v = [m]).
+  { intros v Hv. exists 0. reflexivity. }
+  specialize (Hr Hne Hna Ho). unfold sameset in Hr. specialize (Hr 2). vm_compute in Hr.
+  destruct Hr as [Hin _]. assert (X : 1 = 2 \/ 2 = 2 \/ 3 = 2 \/ False) by (right; left; reflexivity).
+  specialize (Hin X). destruct Hin as [Hc|[Hc|Hc]]; try discriminate; contradiction.
+Qed.
+
+(* the hypotheses of the distribution theorem are satisfiable: any finite map
+   whose bound values are singletons *)
+Lemma others_unionfree_inhabited :
+  forall v, v <> 0 -> exists m, get [(1, [7]); (2, [5])] v = [m].
+Proof.
+  intros v Hv. destruct v as [|[|[|v]]]; [congruence|exists 7|exists 5|exists 0]; reflexivity.
+Qed.
+
+(* ---- the hypothesis "no Any member" is necessary --------------------------- *)
+(* for a variable whose value has an Any member the fall-through narrowing is
+   skipped (a permissive match may have converted that member, so membership
+   cannot be tracked): the imprecision of the un-narrowed fall-through remains
+   exactly there (known finding C20-any-union-fallthrough) *)
+Definition union_distributes_without_noany : Prop :=
+  forall (acc : typ -> member -> bool -> bool) (narrow : typ -> member -> list member) (posof : var -> posn)
+         (isany : member -> bool),
+    (forall T m ex, acc T m ex = true -> narrow T m = [m]) ->
+    forall rho x ms body dflt,
+      ms <> [] ->
+      (forall v, v <> x -> exists m, get rho v = [m]) ->
+      sameset (fst (evaluate acc narrow posof isany ((x, ms) :: rho) body dflt))
+              (flat_map (fun m => fst (evaluate acc narrow posof isany ((x, [m]) :: rho) body dflt)) ms).
+
+Definition any_is_0 (m : member) : bool := m =? 0.
+
+Lemma noany_values :
+  fst (evaluate acc_eq narrow_eq pos_int any_is_0 [(0, [0; 1])] fallthrough_body 4) = [1; 3; 2] /\
+  fst (evaluate acc_eq narrow_eq pos_int any_is_0 [(0, [0])] fallthrough_body 4) = [1] /\
+  fst (evaluate acc_eq narrow_eq pos_int any_is_0 [(0, [1])] fallthrough_body 4) = [2].
+Proof. repeat split; vm_compute; reflexivity. Qed.
+
+Lemma union_distributes_refuted_without_noany : ~ union_distributes_without_noany.
+Proof.
+  intros H.
+  pose proof (H acc_eq narrow_eq pos_int any_is_0 tables_exact (@nil (var * list member)) 0 [0; 1] fallthrough_body 4) as Hr.
+  assert (Hne : [0; 1] <> []) by discriminate.
+  assert (Ho : forall v, v <> 0 -> exists m, get (@nil (var * list member)) v = [m]).
+  { intros v Hv. exists 0. reflexivity. }
+  specialize (Hr Hne Ho). unfold sameset in Hr. specialize (Hr 3). vm_compute in Hr.
+  destruct Hr as [Hin _]. assert (X : 1 = 3 \/ 3 = 3 \/ 2 = 3 \/ False) by (right; left; reflexivity).
+  specialize (Hin X). destruct Hin as [Hc|[Hc|Hc]]; try discriminate; contradiction.
+Qed.
